@@ -282,7 +282,12 @@ func (b *c08Builder) buildLevel(lv c08Level, dir string, isRoot bool) hx.MLayout
 				if defectHere {
 					inner = sub
 				}
-				disagree := defectHere && st.Defect == "sub-disagree" && len(st.Functionaries) > 1 && b.variant == ""
+				nSubFuncs := len(st.Functionaries)
+				if plainIdx >= 0 {
+					nSubFuncs--
+				}
+				// (needs a second sublayout to disagree with; a lone sublayout next to a plain link is what was built)
+				disagree := defectHere && st.Defect == "sub-disagree" && nSubFuncs >= 2 && b.variant == ""
 				if disagree {
 					// this functionary's chain is consistent in itself, but it built something else
 					b.variant = " (built differently)"
@@ -324,10 +329,6 @@ func (b *c08Builder) buildLevel(lv c08Level, dir string, isRoot bool) hx.MLayout
 					}
 				}
 				b.links = append(b.links, file)
-			}
-			if afterSub == nil && dissent != nil {
-				// the only sublayout of the step is the "dissenting" one: it defines what was built
-				afterSub, dissent = dissent, nil
 			}
 			if plainIdx >= 0 {
 				f := st.Functionaries[plainIdx]
